@@ -6,6 +6,7 @@ package main
 // from the extracted IR (.build/gen_SmbCommands.json).
 
 import (
+	"sync"
 	"encoding/json"
 	"fmt"
 	"os"
@@ -70,10 +71,12 @@ func genDir() string {
 	return "/verif/.build"
 }
 
-func loadGenCmds() {
-	if genCmds != nil {
-		return
-	}
+var genCmdsOnce, factoriesOnce sync.Once
+
+// loaded once, by whichever op needs them first (in a replay no generator has run before the parallel ops)
+func loadGenCmds() { genCmdsOnce.Do(loadGenCmdsNow) }
+
+func loadGenCmdsNow() {
 	b, err := os.ReadFile(filepath.Join(genDir(), "gen_SmbCommands.json"))
 	if err != nil {
 		panic("harness: " + err.Error())
@@ -94,10 +97,9 @@ func loadGenCmds() {
 // every command structure reachable from the two factories, by type name
 var factoryCmds map[string]func() command_interface.CommandInterface
 
-func loadFactories() {
-	if factoryCmds != nil {
-		return
-	}
+func loadFactories() { factoriesOnce.Do(loadFactoriesNow) }
+
+func loadFactoriesNow() {
 	factoryCmds = map[string]func() command_interface.CommandInterface{}
 	for code := 0; code < 256; code++ {
 		cc := codes.CommandCode(code)
